@@ -126,14 +126,28 @@ fn run_eval<F: MathFunction>(
         cx.ev.count("interval_evaluations");
         for (k, i) in o.iter().enumerate() {
             if !valid_interval(*i) {
+                // F14: the JIT's add / sub build a half-NaN interval from
+                // opposite infinities; recognised only at an add / sub node or
+                // at a node with an add / sub somewhere below it (the malformed
+                // interval is handed on by later operations)
+                let has_add_sub_below = {
+                    use fidget_core::context::{BinaryOpcode, Op};
+                    crate::build::topo(&b.ctx, &[roots[k]]).iter().any(|n| {
+                        matches!(
+                            b.ctx.get_op(*n).unwrap(),
+                            Op::Binary(BinaryOpcode::Add | BinaryOpcode::Sub, ..)
+                        )
+                    })
+                };
                 if what == "jit"
                     && (i.lower().is_nan() != i.upper().is_nan())
+                    && has_add_sub_below
                     && cx.known("F14-jit-half-nan-interval")
                 {
                     continue;
                 }
                 fail!(
-                    if i.lower().is_nan() != i.upper().is_nan() {
+                    if i.lower().is_nan() != i.upper().is_nan() && has_add_sub_below {
                         "F14-jit-half-nan-interval".to_string()
                     } else {
                         format!("malformed-interval-{what}")
